@@ -11,6 +11,7 @@
 From Coq Require Import List Arith Bool.
 Import ListNotations.
 From ZI Require Import Spec.C3 Proofs.Ro Model.Ro Model.Adapter Model.Lookup Model.Super Spec.Super Proofs.Super.
+From ZI Require Import Model.SuperPrims Gen.SuperKernel Proofs.SuperKernel.
 
 (* the modelled MRO is the textbook C3 linearisation of the class graph *)
 Theorem C19_mro_is_c3 : forall E, env_ok E = true -> forall T,
@@ -153,6 +154,49 @@ Theorem C19_notified_exactly_dependents : forall E st c T, env_ok E = true ->
 Proof. exact notified_thm. Qed.
 Print Assumptions C19_notified_exactly_dependents.
 
+(* ---- the kernel regenerated from the source TEXT on this run (Gen/SuperKernel.v, written by the
+   fail-closed translator harness/translate/super_kernel.py from declarations.py and adapter.py) IS the
+   model the theorems above are about, for all inputs and all states.  [mkPS C T j] is super(C, ob)
+   with type(ob) = T. *)
+Theorem C19_generated_next_super_class_eq_model : forall E C T j,
+  gen_next_super_class E (mkPS C T j) =
+  match mro_of E T with Some mro => next_super_class mro C | None => None end.
+Proof. exact gen_next_super_class_eq. Qed.
+Print Assumptions C19_generated_next_super_class_eq_model.
+
+Theorem C19_generated_implementedBy_super_eq_model : forall E st C T j,
+  gen_implementedBy_super E st (mkPS C T j) =
+  (let '(st', r) := implementedBy_super E st T C in (st', option_map RSynth r)).
+Proof. exact gen_implementedBy_super_eq. Qed.
+Print Assumptions C19_generated_implementedBy_super_eq_model.
+
+(* Implements.changed deletes the cache of its own specification; [notify] is that, run on every
+   specification the (untranslated) Specification.changed walk reaches *)
+Theorem C19_generated_changed_eq_model : forall E st c,
+  gen_implements_changed st (RCls c) = drop_cache st c /\
+  notify E st c = fold_left (fun s x => gen_implements_changed s (RCls x))
+                            (notified E (st_decl st) (cfuel E) c) st.
+Proof. intros. split; [apply gen_implements_changed_eq|apply notify_is_generated_changed]. Qed.
+Print Assumptions C19_generated_changed_eq_model.
+
+Theorem C19_generated_entry_points_eq_model : forall E st a,
+  gen_py_implementedBy E st a = py_implementedBy E st a /\
+  gen_py_providedBy E st a = py_providedBy E st a.
+Proof. intros. split; [apply gen_py_implementedBy_eq|apply gen_py_providedBy_eq]. Qed.
+Print Assumptions C19_generated_entry_points_eq_model.
+
+Theorem C19_generated_adapter_hook_eq_model :
+  forall (ul : list spec -> spec -> name -> option value) (fcall : value -> list nat -> option nat) c p o n,
+  gen_adapter_hook ul fcall c p o n = adapter_hook ul fcall c p o n.
+Proof. exact gen_adapter_hook_eq. Qed.
+Print Assumptions C19_generated_adapter_hook_eq_model.
+
+Theorem C19_generated_queryMultiAdapter_eq_model :
+  forall (ul : list spec -> spec -> name -> option value) (fcall : value -> list nat -> option nat) c os p n,
+  gen_queryMultiAdapter ul fcall c os p n = queryMultiAdapter ul fcall c os p n.
+Proof. exact gen_queryMultiAdapter_eq. Qed.
+Print Assumptions C19_generated_queryMultiAdapter_eq_model.
+
 (* ---- non-vacuity: a diamond with an undeclared mixin below an *only* class.
    interfaces I1, I2, I3(I2), I4; classes A=1 (I1), M=2 (mixin, nothing declared), B(A)=3 (I2),
    Cc(A, M)=4 (nothing declared), D(B, Cc)=5 declared with implementer_only(I4); instance 0 of D
@@ -227,3 +271,11 @@ Example C19_witness_direct :
   answer true ex_E2 (final true ex_E2 ex_ops) (ASuper 5 0) = answer true ex_E (final true ex_E ex_ops) (ASuper 5 0) /\
   answer true ex_E (final true ex_E ex_ops) (AObj 0) <> answer true ex_E2 (final true ex_E2 ex_ops) (AObj 0).
 Proof. vm_compute. repeat split; try reflexivity. discriminate. Qed.
+
+(* the generated kernel, run on the witness world: a cache miss creates specification 0 over Cc A M object *)
+Example C19_witness_generated :
+  let st := final true ex_E [OImplements 1 [1]; OImplements 3 [2]; OOnly 5 [4]] in
+  snd (gen_implementedBy_super ex_E st (mkPS 3 5 0)) = Some (RSynth 0) /\
+  map sy_bases (st_synth (fst (gen_implementedBy_super ex_E st (mkPS 3 5 0)))) = [[4; 1; 2; 0]] /\
+  gen_next_super_class ex_E (mkPS 3 5 0) = Some 4.
+Proof. vm_compute. repeat split; reflexivity. Qed.
